@@ -7,6 +7,7 @@ from . import groupfam, tlc
 from .check_conn import judge
 from .report import run_check
 
+GOALS = ["Goal_error_after_stale_timer", "Goal_stop_during_prepare", "Goal_evicted_as_leader", "Goal_consumer_error_during_join"]
 INVS = ["C16_join_clean", "C16_start_current", "C16_evicted_stop", "C16_one_exchange", "C16_hb_stable", "C16_quiet_after_stop",
         "C17_never_idle", "C17_fatal_surfaces"]
 
@@ -32,6 +33,12 @@ def _exec(args):
     kind, cfg, payload = args
     if kind == "events":
         return groupfam.execute(cfg, payload)
+    if kind == "events-lenient":
+        # the last event is an optional continuation: dropped when the implementation does not offer it
+        t = groupfam.execute(cfg, payload)
+        if t["steps"] and t["steps"][-1]["e"]["a"] == "Unexecutable" and len(t["steps"]) == len(payload):
+            t["steps"].pop()
+        return t
     return groupfam.random_run(cfg, payload[0], payload[1])
 
 
@@ -62,6 +69,18 @@ def run_group(chk, prop, tier, seed):
             paths = paths[:cap]
         jobs = [("events", cfg, g.events(p)) for p in paths]
         sources = ["TLC edge-cover"] * len(jobs)
+        for goal in GOALS:
+            gwd = tlc.workdir("%s-%s-group-goal-%s" % (prop, tier, goal))
+            gd, gl = design_cfg(cfg, 22, inv=False, kf=True)
+            evs = tlc.find_path(gwd, "MC_goal", "Group", gd, gl, goal, timeout=900)
+            chk.count("goal:%s:%s" % (goal, "reached" if evs else "unreachable"))
+            if evs:
+                base = [e["ev"] for e in evs]
+                # the behaviour into the goal state, continued in a few different ways
+                for tail in ([], [{"a": "RejoinFire", "x": 0, "k": "", "w": []}], [{"a": "HbTick", "x": 0, "k": "", "w": []}],
+                             [{"a": "Stop", "x": 0, "k": "", "w": []}]):
+                    jobs.append(("events-lenient", cfg, base + tail))
+                    sources.append("TLC goal %s" % goal)
         sdefs, slines = design_cfg(cfg, 60, inv=False, kf=True)
         for evs in tlc.simulate(wd, "MC_sim", "Group", sdefs, slines, 2000 if thorough else 300, 30, seed + ci, timeout=1500):
             jobs.append(("events", cfg, [e["ev"] for e in evs]))
